@@ -28,7 +28,8 @@ Dummy == [m |-> 2, nodes |-> <<>>]
 Init ==
     /\ l = 1 /\ prog = Dummy /\ S = InitState(Dummy) /\ batch = {} /\ refreshing = FALSE
     /\ execs = <<>> /\ rows = <<>> /\ done = FALSE
-    /\ counts = [queries |-> 0, value_agree |-> 0, execs_agree |-> 0, skipped_runs |-> 0]
+    /\ counts = [queries |-> 0, value_agree |-> 0, execs_agree |-> 0, skipped_runs |-> 0,
+                 dumps |-> 0, dumps_agree |-> 0]
 
 Consume == l' = l + 1 /\ done' = done
 
@@ -89,8 +90,8 @@ TQuery ==
                 eagree == cut \/ SeqBag(predicted) = SeqBag(observed)
             IN /\ S' = r.S
                /\ rows' = IF vagree /\ eagree THEN rows
-                          ELSE Append(rows, [at |-> l, n |-> Ev.n, got |-> Ev.v, model |-> r.v,
-                                             execs_agree |-> eagree])
+                          ELSE Append(rows, [at |-> l, n |-> Ev.n, kind |-> "query_drift", got |-> Ev.v,
+                                             model |-> r.v, execs_agree |-> eagree])
                /\ counts' = [counts EXCEPT !.queries = @ + 1,
                                            !.value_agree = @ + (IF vagree THEN 1 ELSE 0),
                                            !.execs_agree = @ + (IF eagree THEN 1 ELSE 0)]
@@ -99,7 +100,33 @@ TQuery ==
     /\ execs' = <<>>
     /\ UNCHANGED <<prog, batch, refreshing>> /\ Consume
 
-Ignored == {"enter", "read", "tracked", "drop", "reset"}
+(* the engine's recorded state of one node (qbice::verif dump hook) against *)
+(* the model's                                                             *)
+TDump ==
+    /\ Is("dump")
+    /\ IF Modelled /\ Ev.n \in DOMAIN S.lv
+       THEN LET n == Ev.n
+                mlv == IF S.lv[n] = None THEN -1 ELSE S.lv[n]
+                mpbp == IF S.pbp[n] = None THEN -1 ELSE S.pbp[n]
+                mdirty == {d \in DOMAIN S.lv : <<n, d>> \in S.dirty /\ d \in SeqSet(Flatten(S.fwd[n]))}
+                ok == /\ mlv = Ev.lv
+                      /\ S.nfo[n].tfc = SeqSet(Ev.tfc)
+                      /\ mdirty = SeqSet(Ev.dirty)
+                      /\ S.back[n] = SeqSet(Ev.back)
+                      /\ SeqSet(Flatten(S.fwd[n])) = SeqSet(Ev.fwd)
+                      /\ mpbp = Ev.pbp
+            IN /\ rows' = IF ok \/ Len(rows) > 200 THEN rows
+                          ELSE Append(rows, [at |-> l, n |-> n, kind |-> "state_drift",
+                                             real |-> [lv |-> Ev.lv, tfc |-> Ev.tfc, dirty |-> Ev.dirty,
+                                                       back |-> Ev.back, fwd |-> Ev.fwd, pbp |-> Ev.pbp],
+                                             model |-> [lv |-> mlv, tfc |-> S.nfo[n].tfc, dirty |-> mdirty,
+                                                        back |-> S.back[n],
+                                                        fwd |-> SeqSet(Flatten(S.fwd[n])), pbp |-> mpbp]])
+               /\ counts' = [counts EXCEPT !.dumps = @ + 1, !.dumps_agree = @ + (IF ok THEN 1 ELSE 0)]
+       ELSE UNCHANGED <<rows, counts>>
+    /\ UNCHANGED <<prog, S, batch, refreshing, execs>> /\ Consume
+
+Ignored == {"enter", "read", "tracked", "drop", "reset", "act"}
 TOther ==
     /\ l <= Len(Rec) /\ Ev.e \in Ignored
     /\ UNCHANGED <<prog, S, batch, refreshing, execs, rows, counts>> /\ Consume
@@ -108,7 +135,7 @@ TOther ==
 TLeave ==
     /\ l <= Len(Rec)
     /\ Ev.e \notin Ignored \cup {"prog", "begin", "set", "world", "refresh_start", "refresh",
-                                 "commit", "exec", "restart", "query"}
+                                 "commit", "exec", "restart", "query", "dump"}
     /\ S' = [S EXCEPT !.err = "left"]
     /\ UNCHANGED <<prog, batch, refreshing, execs, rows, counts>> /\ Consume
 
@@ -119,7 +146,7 @@ Finish ==
     /\ UNCHANGED <<l, prog, S, batch, refreshing, execs, rows, counts>>
 
 Next == Start \/ TBegin \/ TSet \/ TWorld \/ TRefreshStart \/ TRefresh \/ TCommit \/ TExec
-        \/ TRestart \/ TQuery \/ TOther \/ TLeave \/ Finish
+        \/ TRestart \/ TQuery \/ TDump \/ TOther \/ TLeave \/ Finish
 Spec == Init /\ [][Next]_tvars
 Accepted == TLCGet("stats").diameter >= Len(Rec) + 2
 =============================================================================
